@@ -39,6 +39,8 @@ def draw_range(rng, f):
     def bound():
         u = rng.random()
         i = rng.randrange(n)
+        if u < 0.04:
+            return 0.0                                           # zero is a legal bound (not 'no bound')
         if u < 0.30:
             return float(f[i])                                   # on a sample
         if u < 0.60:
@@ -959,13 +961,18 @@ def oracle_c05(ctx, st, op, info):
                       lambda: f"{name} changed from {got[name]!r} to {got2[name]!r} when only rejected rows were overwritten",
                       key={**key, "stat": name.split("(")[0]})
         ctx.probe("c05_garbage_twin")
-    # identical to an object built from the accepted windows alone
-    if np.array_equal(P, W & has_peak) and has_peak[W].all():
+    # identical to an object built from the accepted windows alone: the resonance statistics always
+    # (an accepted window that has a peak contributes it), the curve statistics when every accepted
+    # window has a peak (the constructor of the rebuilt object drops peak-less rows from its curves)
+    if (W & has_peak).sum() >= 2:
         rb = H.HvsrTraditional(st.f, rows)
         rb.update_peaks_bounded(search_range_in_hz=tuple(st.cur_range),
                                 find_peaks_kwargs=copy.deepcopy(st.cur_kwargs))
         got3 = _accessors_trad(rb)
+        curves_too = bool(has_peak[W].all())
         for name in got:
+            if "curve" in name and not curves_too:
+                continue
             ctx.check(stat_same(name, got[name], got3[name], F, A, rows), "differs_from_rebuilt",
                       lambda: f"{name} = {got[name]!r} but an object built from the accepted windows alone gives {got3[name]!r}",
                       key={**key, "stat": name.split("(")[0]})
